@@ -399,6 +399,16 @@ func (r *Report) replay(path string, e *Enc, ob *Obligation) bool {
 	json.Unmarshal(data, &rf)
 	defer func() { writeJSON(path, rf) }()
 
+	if custom, err := os.ReadFile(filepath.Join(verifDir, "replay", sanitize(ob.Name)+".go")); err == nil && e.topFn != nil {
+		// hand-written scenario for obligations whose inputs are not function arguments
+		rf.Harness = string(custom)
+		rf.Package = funcPkgPath(e.topFn)
+		log, confirmed := runHarness(r.Work, e.L.RepoDir, rf.Package, rf.Harness, sanitize(ob.Name))
+		rf.ReplayLog = trunc(log, 3000)
+		rf.Confirmed = confirmed
+		rf.Note = "custom scenario replay (no solver inputs: the obligation depends on package state)"
+		return confirmed
+	}
 	if ob.Kind == "rel" && strings.Contains(ob.Name, "/rel.") {
 		inputs, mb, scal := r.relModel(e, ob)
 		if inputs == nil {
